@@ -12,7 +12,7 @@ for f in sorted(glob.glob(os.path.join(V, "evidence", "C*.json"))):
     for k in ("states", "transitions", "schedules", "faults_injected"):
         v = (c.get("counters") or {}).get(k) if isinstance(c.get("counters"), dict) else None
         if v: extra.append(f"{k}={v}")
-    rows.append(f"| {e['property_id']} | {e.get('tier','')} | {c.get('cases')} | {c.get('distinct_nontrivial')} | {c.get('evaluations')} | {c.get('distinct_observed_results')} | {c.get('exhaustive')} | {round(float(e.get("wall_s") or 0),1)} |")
+    rows.append(f"| {e['property_id']} | {e.get('tier','')} | {c.get('cases')} | {c.get('distinct_nontrivial')} | {c.get('evaluations')} | {c.get('distinct_observed_results')} | {c.get('exhaustive')} | {round(float(e.get('wall_s') or 0),1)} |")
 tbl = "| check | tier | cases | non-trivial | evaluations | distinct outcomes | exhaustive | wall s |\n|---|---|---|---|---|---|---|---|\n" + "\n".join(rows)
 p = os.path.join(V, "DESIGN.md"); s = open(p).read()
 s = re.sub(r"<!-- numbers:begin -->.*?<!-- numbers:end -->", "<!-- numbers:begin -->\n" + tbl + "\n<!-- numbers:end -->", s, flags=re.S)
